@@ -299,7 +299,13 @@ fn refract<S: Lift, V: Sp<S, N>, const N: usize>(t: &mut Tape, cx: &mut Cx) -> C
         // Snell construction in the plane of an orthonormal pair (nrm, tan):
         // i = -+cos(th1) nrm + sin(th1) tan,  eta = sin(th2)/sin(th1)  =>  k = cos^2(th2), result = sin(th2) tan - cos(th2) nrm
         let (nrm, tan) = ortho_pair::<S, N>(t);
-        let (a1, b1, h1) = PYTH[t.below(PYTH.len())];
+        // incidence angle: ordinary Pythagorean triple, or (1 in 4) next to normal / grazing incidence
+        let (a1, b1, h1) = if t.chance(64) {
+            cx.label("refracted: incidence next to normal / grazing (sin or cos th1 = 20/101, 28/197, 60/901)");
+            t.pick(&[(20i64, 99i64, 101i64), (99, 20, 101), (28, 195, 197), (195, 28, 197), (60, 899, 901), (899, 60, 901)])
+        } else {
+            PYTH[t.below(PYTH.len())]
+        };
         let (s1, c1) = (S::q(a1, h1), S::q(b1, h1));
         let front = !t.chance(64); // incident against the normal (physical) or along it
         let ci = if front { -c1 } else { c1 };
@@ -373,7 +379,15 @@ fn refract<S: Lift, V: Sp<S, N>, const N: usize>(t: &mut Tape, cx: &mut Cx) -> C
     let (io, no) = (lift_v(&inc), lift_v(&nrm));
     let ndi = rf::dot(&no, &io);
     let one = o_i::<S>(1);
-    let eta = if S::EXACT || t.bool() { S::q(t.int(1, 12), t.pick(&[1i64, 2, 3, 4, 5, 7])) } else { S::of_f64(t.range_f64(0.2, 3.0)) };
+    let eta = if t.chance(64) {
+        cx.label("refracted: eta a power of two in 2^-12 .. 2^4");
+        let e = t.int(-12, 4);
+        if e < 0 { S::q(1, 1 << -e) } else { S::i(1 << e) }
+    } else if S::EXACT || t.bool() {
+        S::q(t.int(1, 12), t.pick(&[1i64, 2, 3, 4, 5, 7]))
+    } else {
+        S::of_f64(t.range_f64(0.2, 3.0))
+    };
     let eo = eta.lift();
     let k = one - eo * eo * (one - ndi * ndi);
     let dk = 16.0 * nf * S::eps() * (1.0 + eo.f() * eo.f());
